@@ -25,10 +25,10 @@ theorem default_wellFormed : Config.default.wellFormed = true := by decide
 theorem default_limits : Config.default.maxLevels = 8 ∧
     ∀ l, l < 8 → Config.default.heights.getD l 0 = 25 ∧ Config.default.winternitz.getD l 0 = 1 := by decide
 
-/-- `Config.maxHssSigLen` mirrors this text of `constants.rs::get_hss_signature_length`; if the source changes,
-this is what breaks -/
-theorem hssSigLen_src_pinned : hssSigLenSrc =
-    "let mut length = size_of::<u32>(); let mut level = MAX_ALLOWED_HSS_LEVELS - 1; while level > 0 { length += hss_signed_public_key_length( MAX_HASH_SIZE, get_num_winternitz_chains(WINTERNITZ_PARAMETERS[level], MAX_HASH_SIZE), TREE_HEIGHTS[level], ); level -= 1; } length + lms_signature_length( MAX_HASH_SIZE, get_num_winternitz_chains(WINTERNITZ_PARAMETERS[0], MAX_HASH_SIZE), TREE_HEIGHTS[0], )" := rfl
+/- `Config.maxHssSigLen` mirrors `constants.rs::get_hss_signature_length`. It used to be tied to the source *text*;
+that tie raised an alarm on behaviour-preserving rewrites of the function, so it is now tied by *value*: the `consts`
+request compares MAX_HSS_SIGNATURE_LENGTH (and every other capacity) of the compiled library with the model's
+`Config` under every build configuration the check explores (tools/props/C14.py). -/
 
 /-! ### T1 - what a restricted build accepts, and that its capacities suffice (part A) -/
 
@@ -428,7 +428,6 @@ example : (paramsOfBytes (Config.mk 2 [10, 5] [2, 4]) 32 [0x62, 0x53, 0xff, 0xff
 end Props.C14
 
 #print axioms Props.C14.default_wellFormed
-#print axioms Props.C14.hssSigLen_src_pinned
 #print axioms Props.C14.accepted_list_fits
 #print axioms Props.C14.accepted_by_default
 #print axioms Props.C14.accepted_iff
